@@ -1447,10 +1447,19 @@ static PhysText generateModel(Rng& rng, ModelInfo& mi) {
     auto injControl = [&](const W& w) {
         static const char* modes[] = {"RATE", "RESV", "BHP"};
         const int md = (int)rng.below(3);
-        p.t("WCONINJE\n '" + w.name + "' '" + (w.kind == 'G' ? "GAS" : "WATER") + "' 'OPEN' '" + modes[md] + "'");
+        // a liquid injector injects water or, in a fifth of the cases, oil (the handler converts item 10 by hand for that type)
+        const bool oilInj = w.kind != 'G' && rng.chance(0.2);
+        p.t("WCONINJE\n '" + w.name + "' '" + (w.kind == 'G' ? "GAS" : (oilInj ? "OIL" : "WATER")) + "' 'OPEN' '" + modes[md] + "'");
         p.v(w.kind == 'G' ? LU(1e-1, 10) : LU(1e-4, 1e-2), w.kind == 'G' ? "GasSurfaceVolume/Time" : "LiquidSurfaceVolume/Time");
-        const bool rd = vd(LU(1e-4, 1e-2), "ReservoirVolume/Time", md == 1 ? 0 : 0.3); vd(U(3e7, 5e7), "Pressure", md == 2 ? 0 : 0.3);
+        const bool rd = vd(LU(1e-4, 1e-2), "ReservoirVolume/Time", md == 1 ? 0 : 0.3); const bool bd = vd(U(3e7, 5e7), "Pressure", md == 2 ? 0 : 0.3);
         if (w.name == "I1") i1ResvDefaulted = rd;
+        (void)bd;
+        // item 10: vaporised oil in the injected gas (Rv, liquid / gas) or dissolved gas in the injected oil (Rs, gas / liquid)
+        if ((w.kind == 'G' || oilInj) && rng.chance(0.5)) {
+            feat(oilInj ? "WCONINJE OIL item 10 (Rs)" : "WCONINJE GAS item 10 (Rv)");
+            p.t(" 2*");
+            if (oilInj) p.v(U(50, 150), "GasSurfaceVolume/LiquidSurfaceVolume"); else p.v(LU(1e-5, 1e-3), "LiquidSurfaceVolume/GasSurfaceVolume");
+        }
         p.t(" /\n/\n");
     };
     auto histControl = [&](const std::string& w) {
@@ -1777,6 +1786,10 @@ static int runModel(const vh::Args& args, vh::Reporter& rep, Env& env) {
                 for (size_t i = 0; i < nmin && reported < 3; ++i) {
                     const Ent& a = A[i]; const Ent& b = B[i];
                     if (a.path == "VFPPROD[0].UNITS[0]" && b.path == a.path) continue;     // written differently on purpose (see rendering)
+                    // WCONINJE item 10 carries the dimension of Rv (liquid/gas) in the keyword definition; for an OIL injector the number
+                    // is Rs (gas/liquid) and the handler undoes the item's conversion by hand.  The Deck level value is therefore not a
+                    // physical quantity for that injector type; the well's rsRvInj in the schedule section is what is compared.
+                    if (sn == "deck" && a.path == b.path && a.path.find("WCONINJE[") == 0 && a.path.find("].VAPOIL_C[") != std::string::npos) continue;
                     if (a.path != b.path || a.num != b.num || (!a.num && a.txt != b.txt)) {
                         std::string site = siteOf(a.path);
                         rep.violation("model-structure-differs:" + sn + ":" + site.substr(0, 80), sn + ": entry " + a.path + " is '" + (a.num ? g17(a.v) : a.txt) + "' in METRIC but " + b.path + " '" + (b.num ? g17(b.v) : b.txt) + "' in " + SYSKEY[s],
